@@ -74,6 +74,9 @@ def cross_process(h: Harness):
                     continue
                 for s in seeds[: (1 if (a != "gp" and not h.thorough) else len(seeds))]:
                     configs.append([a, r, gname, s, {"gp": 30, "gpc": 120}.get(a, 12)])
+    # a grammar whose productions live in separate modules (imported in another order in some environments)
+    for a, r in (("gp", "tree"), ("rs", "tree"), ("gp", "ge"), ("hc", "sge"), ("gp", "dsge"), ("rs", "stack")):
+        configs.append([a, r, "split", 3, {"gp": 30}.get(a, 12)])
     envs = [{"PYTHONHASHSEED": "0", "C08_PAD": "0", "C08_IMPORT_ORDER": "a"},
             {"PYTHONHASHSEED": "1", "C08_PAD": "1000", "C08_IMPORT_ORDER": "b"},
             {"PYTHONHASHSEED": "4242", "C08_PAD": "123457", "C08_IMPORT_ORDER": "a"}]
